@@ -68,6 +68,9 @@ Definition name_ok (comps : list (list N)) : bool :=
   | _ => false
   end.
 
+(* a commodity: an identifier of the grammar that Commodity::from accepts *)
+Definition comm_ok (s : list N) : bool := ident_ok s && comm_sem_ok s.
+
 Definition code_ok (c : list N) : bool := forallb code_char c && str_eqb (trim c) c.
 Definition desc_ok (d : list N) : bool := no_eol d && str_eqb (trim_end d) d.
 Definition is_lhex (c : N) : bool := is_digit c || in_rng 97 102 c.
@@ -107,11 +110,11 @@ Definition unit_priced_b (p : posting) : bool :=
 
 Definition posting_shape_b (p : posting) : bool :=
   name_ok (p_acc p) && acct_sem_ok (p_acc p) && fits (p_amount p) && negb (is_zero (p_amount p))
-  && (is_nil (p_comm p) || ident_ok (p_comm p)).
+  && (is_nil (p_comm p) || comm_ok (p_comm p)).
 Definition posting_price_b (p : posting) : bool :=
   if str_eqb (p_txn_comm p) (p_comm p)
   then negb (p_total p) && drepr_eqb (p_txn_amount p) (p_amount p)
-  else ident_ok (p_comm p) && ident_ok (p_txn_comm p) && fits (p_txn_amount p)
+  else comm_ok (p_comm p) && comm_ok (p_txn_comm p) && fits (p_txn_amount p)
        && (if p_total p
            then negb ((is_neg (p_txn_amount p) && negb (is_neg (p_amount p)))
                       || (is_neg (p_amount p) && negb (is_neg (p_txn_amount p))))
